@@ -698,7 +698,10 @@ MANIFEST = {
             "for every kernel-formatted descriptor table open_files() of the model returns exactly the regular absolute-path still-open descriptors "
             "with fd/offset/flags/mode and never fails for a live process (tables with a listed access-mode-3 file excluded: known finding, refuted "
             "theorem kept); num_fds counts all; io_counters returns the six counters for every file of numeric, blank, colon-free and non-numeric "
-            "lines (last duplicate wins). The model is tied to the code by running both on generated tables and files (exhaustive over 512 flag words).",
-    "note": "Trusted: Coq kernel + vm_compute; hand-written model coq/C14/Model.v (tied by the correspondence run only); kernel formats in coq/C14/Spec.v; "
+            "lines (last duplicate wins); answers depend only on the procfs mount the Process object is bound to; the kernel's reported flag word keeps what the mode depends on. "
+            "Tie to the code: file_flags_to_mode and the io_counters constants are re-translated from the current source on every run and proved equal to the model for every flag word "
+            "(C14_translated_mode_is_model); the rest of the model is tied by running model and code on generated tables and files (exhaustive over 512 flag words), including cases over the real /proc "
+            "that validate the specification's kernel printer against the running kernel.",
+    "note": "Trusted: Coq kernel + vm_compute; translator props/C14.py:gen_tables + interpreter coq/C14/PyMini.v; hand-written model coq/C14/Model.v of open_files/num_fds/io_counters (tied by the correspondence run only); kernel formats in coq/C14/Spec.v (validated against the running kernel by the live cases); "
             "harness (fake /proc, os.readlink/os.stat/os.listdir patches); CPython builtins. Proof covers the model, sampling covers model-vs-code.",
 }
